@@ -490,6 +490,35 @@ def call (F : Facts) (k : ClientKind) (r : RouteKind) (t : ElemTy) (qlen addr : 
     | .ok ys => .ok ys
     | .error e => .error (.client e)
 
+/-! ### builder sequences: the body setters of `MessageBuilder` -/
+
+/-- A body setter call with its argument. -/
+inductive Setter where
+  | bytes (b : Bytes)                          -- `body_bytes`: leaves the body format alone
+  | utf8 (b : Bytes)                           -- `body_utf8`
+  | json (b : Bytes)                           -- `body_json` (the serialized JSON text)
+  | beve (t : ElemTy) (xs : List Bytes)        -- `body_beve(&Vec<T>)`
+  | typed (t : ElemTy) (xs : List Bytes)       -- `body_typed_slice`
+  | complex (t : ElemTy) (xs : List Bytes)     -- `body_complex_slice`
+  | aligned (t : ElemTy) (xs : List Bytes)     -- `body_aligned_typed_slice`
+
+/-- One setter on the builder's `(body_format, body)`; `qlen` is the length of the query the builder
+holds at that moment.  Every setter replaces the body; all but `body_bytes` set the format. -/
+def Setter.apply (F : Facts) (qlen : Nat) (s : Setter) (st : Nat × Bytes) : Nat × Bytes :=
+  match s with
+  | .bytes b => (st.1, b)
+  | .utf8 b => (3, b)
+  | .json b => (2, b)
+  | .beve t xs => (BEVE, encodeGeneric t xs)
+  | .typed t xs => (BEVE, bodyTypedSlice t xs)
+  | .complex t xs => (BEVE, bodyComplexSlice t xs)
+  | .aligned t xs => (BEVE, bodyAlignedTypedSlice F t qlen xs)
+
+/-- `Message::builder().id(id)` + query (before or after the body setters) + setters + `build()`. -/
+def buildSeq (F : Facts) (id : Nat) (q : Bytes) (queryAfter : Bool) (ss : List Setter) : Message :=
+  let st := ss.foldl (fun st s => s.apply F (if queryAfter then 0 else q.length) st) (0, [])
+  ({ id := id, notify := false, ec := 0, queryFormat := 0, bodyFormat := st.1, query := q, body := st.2 } : Builder).build
+
 /-- The body a client entry point builds.  `timeout` selects the `_with_timeout` twin.  The query
 length the aligned builder sees is the path's only if the query is set before the body closure runs. -/
 def clientBody (F : Facts) (C : ClientFacts) (k : ClientKind) (timeout : Bool) (t : ElemTy) (qlen : Nat)
